@@ -252,6 +252,19 @@ impl Prop for C14 {
     }
 
     fn check(c: &Case, obs: &mut Obs) {
+        // history round (core::history_round): the same inputs with `graphemes` flipped in between
+        if history_round(
+            c,
+            obs,
+            |c| {
+                let mut v = c.clone();
+                v.graphemes = !v.graphemes;
+                v
+            },
+            Self::check,
+        ) {
+            return;
+        }
         let g = c.graphemes;
         let part = || {
             if c.part_input {
